@@ -2,7 +2,7 @@ INIT Init
 NEXT Next
 CONSTANT Family = "R"
 CONSTANT Tier = "thorough"
-CONSTANT N = 100000
+CONSTANT N = 30000
 INVARIANT Inv_NonNeg
 INVARIANT Inv_Asset
 INVARIANT Inv_Sum
